@@ -1,4 +1,4 @@
-"""C06 -- signature changes keep calls bound to the same values (R06.1-R06.13)."""
+"""C06 -- signature changes keep calls bound to the same values (R06.1-R06.14)."""
 from __future__ import annotations
 
 import ast
@@ -22,6 +22,7 @@ EXPLANATION = (
     "pipeline are not decided."
     ' R06.9 (=R14.14): text handed back by the word finder is cut from the raw source, never from the blanked search text.'
 )
+EXPLANATION += ' R06.13: mapping keys read off args_with_defaults are names (two subscripts).  R06.14: line/column pairs.'
 EXPLANATION += ' R06.12: the positional part of a rebuilt call is cut short only when no surplus positional arguments follow.'
 EXPLANATION += ' R06.10: a `col_offset`/`end_col_offset` of an AST node (UTF-8 bytes) reaches a character offset only through codeanalyze.column_to_offset; it is otherwise only compared, or is the start column of a node tested to be a statement. R06.11: a function that remembers its answer under a key reads, in the computation of the remembered value, nothing of its parameters that the key does not contain (followed into the helpers it calls).'
 ASSUMPTIONS = ["alignment rule of the language reference as recorded in sa/grammar.py DEFAULT_ALIGNMENT",
@@ -310,6 +311,9 @@ def check(ctx, res) -> None:
     memo_key_rule(ctx, res, "R06.11", ("rope.refactor.change_signature", "rope.refactor.functionutils"))
     _surplus_positionals_rule(ctx, res)
     _mapping_key_is_a_name_rule(ctx, res)
+    from .common import position_pair_rule
+
+    position_pair_rule(ctx, res, "R06.14", ("rope.refactor.occurrences", "rope.refactor.functionutils", "rope.base.evaluate", "rope.refactor.patchedast", "rope.base.codeanalyze"))
 
 
 def _surplus_positionals_rule(ctx, res) -> None:
